@@ -13,8 +13,19 @@ from .stmts import StmtMixin
 from .calls import CallMixin
 
 
+CONTAINER_TAG = {'list': -1, 'dict': -2, 'set': -3}
+
+
 class Unsupported(Exception):
     """construct outside the verified subset -> the function is *undecided* (exit 2), never silently skipped"""
+
+
+class WidenType(Exception):
+    """a local changes type across a loop back edge (typically None -> T): re-run with the variable declared at the joined type"""
+
+    def __init__(self, name, ty):
+        Exception.__init__(self, name)
+        self.name, self.ty = name, ty
 
 
 class Obligation:
@@ -154,6 +165,8 @@ class FnVerifier(ExprMixin, StmtMixin, CallMixin):
             return
         if t.is_ref:
             st.assume(sv.z != NULL, st.alloc(sv.z))
+        if t.kind in CONTAINER_TAG:
+            st.assume(dtype(sv.z) == CONTAINER_TAG[t.kind])      # a list is never a dict / set / instance
         if t.kind == 'list':
             st.assume(st.llen(sv.z) >= 0)
         if t.kind == 'obj' and t.args[0] in self.reg.classes:
@@ -199,6 +212,16 @@ class FnVerifier(ExprMixin, StmtMixin, CallMixin):
         return self.fn.body
 
     def run(self):
+        for attempt in range(6):
+            try:
+                return self.run_once()
+            except WidenType as w:
+                self.c.types[w.name] = w.ty
+                self.obls, self.counters, self.loop_no, self.exits, self.closures = [], {}, 0, [], {}
+                self.handlers, self.sinks = [], [[]]
+        raise Unsupported('type widening did not converge')
+
+    def run_once(self):
         st = self.setup_entry()
         # vacuity: the precondition must be satisfiable
         self.oblige('cover.requires', st, z3.BoolVal(False), self.fn, kind='cover', expect_sat=True)
